@@ -195,4 +195,24 @@ def addUnitsB (tol : Rat) (d : Nat) (u : Units) (raw : Rat) (q : V3) : Bool :=
   let m := addUnitsPhys d u raw
   relClose tol q.x m.x && relClose tol q.y m.y && relClose tol q.z m.z
 
+/-! ## VoxelNeuron.volume -/
+
+def V3.axis (v : V3) : Nat → Rat
+  | 0 => v.x
+  | 1 => v.y
+  | 2 => v.z
+  | _ => 1
+
+/-- `VoxelNeuron.volume` as written: `self.nnz * self.units_xyz[i] * self.units_xyz[j] * …` for the axes `i, j, …` of the
+current source (`Gen.Units.voxelVolumeAxes`), a quantity in metres^(number of axes); not wrapped in `add_units` (navis
+afa4901), so the value is the same with and without `config.add_units`. -/
+def voxelVolumeBy (axes : List Nat) (u : Units) (nnz : Nat) : Rat :=
+  axes.foldl (fun acc a => acc * u.phys.axis a) (nnz : Rat)
+
+def voxelVolume (u : Units) (nnz : Nat) : Rat := voxelVolumeBy Gen.Units.voxelVolumeAxes u nnz
+
+/-- checker on the implementation's output (`q`: the reported quantity in base units, `dim`: its power of length) -/
+def voxelVolumeB (tol : Rat) (u : Units) (nnz : Nat) (dim : Nat) (q : Rat) : Bool :=
+  dim == Gen.Units.voxelVolumeAxes.length && relClose tol q (voxelVolume u nnz)
+
 end Navis.Units
